@@ -132,7 +132,9 @@ def run_partition(ob, part, twin=False, exclude=None, kf_active=None, timeout=No
                 status, detail = 'inconclusive', 'unable to meet precondition'
             elif 'Not confirmed' in msg:
                 status, detail = 'inconclusive', 'not confirmed (timeout or unexplored paths)'
-    if rc not in (0, 1) and status != 'counterexample':
+    if rc == -9 and status != 'counterexample':
+        status, detail = 'inconclusive', 'wall-clock limit reached (machine busy)'
+    elif rc not in (0, 1) and status != 'counterexample':
         status = 'error'
         detail = (err or out)[-2000:]
     return {'status': status, 'detail': detail, 'cex': cex, 'stats': stats, 'wall': wall,
@@ -378,7 +380,12 @@ def run_check(prop, obligations, tier, level='model_checking', assumptions=None,
             twin_ok = bool(tw and tw['status'] == 'counterexample')
             if tw and tw.get('sample'):
                 samples.append({'obligation': ob.name, 'reachable_nontrivial_input': tw['sample']})
-            if not twin_ok:
+            if not twin_ok and tw and tw['status'] == 'inconclusive':
+                # the twin ran out of budget before reaching a non-trivial path: not a proof of vacuity
+                inconclusive.append({'obligation': ob.name, 'part': 'twin',
+                                     'why': 'reachability twin inconclusive: %s' % tw['detail']})
+                twin_ok = None
+            elif not twin_ok:
                 harness_errors.append('%s: reachability twin not violated (%s: %s) -> harness may be vacuous'
                                       % (ob.name, tw and tw['status'], (tw and (tw['detail'] or tw['err'] or tw['out']))[-600:]))
         exhaustive = (len(confirmed) == len(rs)) and not ob.bug_hunting_only
